@@ -841,6 +841,8 @@ coap_oscore_decrypt_pdu(coap_session_t *session,
   uint8_t external_aad_buffer[100];
   coap_bin_const_t external_aad;
   oscore_sender_ctx_t *snd_ctx = NULL;
+  uint8_t rcvd_piv[sizeof(cose->partial_iv_data)];
+  size_t rcvd_piv_len = 0;
 #if COAP_CLIENT_SUPPORT
   coap_pdu_t *sent_pdu = NULL;
 #endif /* COAP_CLIENT_SUPPORT */
@@ -1237,6 +1239,10 @@ coap_oscore_decrypt_pdu(coap_session_t *session,
      * Compose the AEAD nonce.
      */
     cose_encrypt0_set_key_id(cose, rcp_ctx->recipient_id);
+    /* Remember the response's own Partial IV (used for Observe below) */
+    rcvd_piv_len = cose->partial_iv.length;
+    if (rcvd_piv_len > 0)
+      memcpy(rcvd_piv, cose->partial_iv.s, rcvd_piv_len);
     if (cose->partial_iv.length == 0) {
       cose_encrypt0_set_partial_iv(cose, association->partial_iv);
       cose_encrypt0_set_nonce(cose, association->nonce);
@@ -1570,14 +1576,18 @@ coap_oscore_decrypt_pdu(coap_session_t *session,
       break;
     case COAP_OPTION_OBSERVE:
       if (!coap_request) {
-        bias = cose->partial_iv.length > 3 ? cose->partial_iv.length - 3 : 0;
-        len = cose->partial_iv.length > 3 ? 3 : cose->partial_iv.length;
+        /*
+         * cose->partial_iv holds the request's Partial IV by now (set for the
+         * AAD); the notification number is the response's own Partial IV.
+         */
+        bias = rcvd_piv_len > 3 ? rcvd_piv_len - 3 : 0;
+        len = rcvd_piv_len > 3 ? 3 : rcvd_piv_len;
         /* Make Observe option reflect last 3 bytes of partial_iv */
         if (!coap_add_option_internal(
                 decrypt_pdu,
                 opt_iter.number,
                 len,
-                cose->partial_iv.s ? &cose->partial_iv.s[bias] : NULL)) {
+                len ? &rcvd_piv[bias] : NULL)) {
           coap_handle_event_lkd(session->context,
                                 COAP_EVENT_OSCORE_INTERNAL_ERROR,
                                 session);
